@@ -124,7 +124,7 @@ func Generate(property, tier string, seed uint64, idx uint64) *Trace {
 				g := add(gasNode(r, under))
 				opNodes = append(opNodes, g, g, g)
 			case 2: // trace on top
-				t := add(Node{Kind: "trace", Parent: under, FailWrite: failAt(r)})
+				t := add(Node{Kind: "trace", Parent: under, FailWrite: failAt(r), TraceCtx: r.Chance(0.5)})
 				opNodes = append(opNodes, t, t, t)
 			case 3: // prefix over gas (the Subspace shape)
 				g := add(gasNode(r, under))
@@ -207,6 +207,17 @@ func Generate(property, tier string, seed uint64, idx uint64) *Trace {
 		before := len(tr.Ops)
 		defer func() {}()
 		_ = before
+		if property == "C16" && r.Chance(0.05) {
+			switch nd := tr.Nodes[n]; {
+			case nd.Kind == "gas" && nd.LimitAfterOp == 0:
+				amt := []uint64{0, 1, 1000, 1 << 63, 1<<63 + 1, 0xC000000000000000, ^uint64(0), ^uint64(0) - 1}[r.Intn(8)]
+				tr.Ops = append(tr.Ops, Op{K: "consume", N: n, Amount: amt})
+				continue
+			case nd.Kind == "trace" && nd.TraceCtx:
+				tr.Ops = append(tr.Ops, Op{K: "tctx", N: n})
+				continue
+			}
+		}
 		canWrite := len(open) == 0 || (writesDuringIter && func() bool {
 			for _, o := range open {
 				if metered(o.node) {
